@@ -1,13 +1,1087 @@
-//! C19 — stub (not built yet; not registered in MANIFEST.json).
-use super::*;
+//! C19 — formatted values show the correctly rounded number.
+//!
+//! Statement clauses and the sub-check that decides each:
+//!  * fixed-decimal / thousands / percentage patterns show the decimal rounding (half away
+//!    from zero, sign kept, carries, separators)                        -> `fixed`
+//!  * General shows numbers and text unchanged                           -> `general`
+//!  * formatting never panics for any built-in format code and any finite number -> `builtin`
+//!
+//! The reference is `model::decimal` (digit surgery on the shortest round-trip decimal of
+//! the f64, cross-checked against Python `decimal`).  Cases never carry an f64: a number is
+//! a decimal string parsed with `str::parse::<f64>` (correctly rounded), so a replay file
+//! determines the bits.
+use super::Prop;
+use crate::engine::*;
+use crate::model::decimal::{render_fixed, Dec};
+use proptest::prelude::*;
+use rayon::prelude::*;
+use serde::{Deserialize, Serialize};
+use serde_json::json;
+use std::sync::atomic::{AtomicBool, Ordering};
+use umya_spreadsheet::helper::number_format::to_formatted_string;
 
 pub fn prop() -> Prop {
     Prop {
         id: "C19",
-        describe: |_| {},
-        subs: no_subs,
-        extra: no_extra,
-        replay_extra: no_replay_extra,
-        watchdog_s: (900, 7200),
+        describe,
+        subs,
+        extra,
+        replay_extra: super::no_replay_extra,
+        watchdog_s: (900, 14400),
     }
+}
+
+fn describe(ctx: &Ctx) {
+    ctx.rule("fixed: numbers built as (sign, integer digits, fraction digits) with at most 15 significant digits and magnitude 1e-7..1e15 (or 0), the fraction built relative to the pattern (shorter / equal / longer with first dropped digit <5, =5 exactly, >=5; leading zeros; runs of 9 that carry into the integer part); patterns 0, 0.0..0.000000, #,##0, #,##0.0..#,##0.000000, 0%, 0.0%..0.000000%; through to_formatted_string, Cell+set_format_code and Cell+set_number_format_id. Non-trivial = the rounded number's fraction is longer than the pattern with first dropped digit >=5, or shorter than the pattern, or begins with 0; distinct by (number, pattern, route)");
+    ctx.rule("general: General format with numbers (fixed domain and the whole finite range) and text (incl. numeric look-alikes); non-trivial = a number with a fraction or an exponent-sized magnitude, or a text that parses as a number");
+    ctx.rule("builtin: every built-in format id the library knows (through set_number_format_id and through its code) and every ECMA-376 built-in format code x finite numbers over the whole f64 range; non-trivial = the format is not General/@ ");
+    ctx.rule("enumerated: every n in 0..=N (N = 1200 quick, 20000 thorough) x scale 10^-s (s = 0..=4, thorough 0..=5) x decimals 0..=3 (thorough 0..=4) x the three pattern kinds, every third one negative, through to_formatted_string (same oracle and non-triviality rule as `fixed`)");
+    ctx.assume("the number that is rounded is the shortest round-trip decimal of the f64 (statement: 'computed from the float's shortest representation'), x100 for percentages is a shift of the decimal point");
+    ctx.assume("negative values whose rounding is all zeros may be shown with or without the sign (the statement does not fix that case); -0.0 is not generated in `fixed`");
+    ctx.assume("General/number: 'unchanged' = the shown text equals the cell's value text or parses (str::parse::<f64>) to the same f64 bits; General/text: the shown text equals the text");
+    ctx.assume("percentage x thousands separators (#,##0%) is not one of the statement's patterns and is not generated");
+}
+
+// ---------------------------------------------------------------------------------------
+// numbers as decimal strings
+
+/// `[-]int.frac` in positional notation, or `[-]0.DIGITSe<point>` when `exp` is set.
+#[derive(Debug, Clone, Serialize, Deserialize, PartialEq, Eq, Hash)]
+pub struct Num {
+    pub neg: bool,
+    /// integer digits (at least "0")
+    pub int: String,
+    /// fraction digits (may be empty)
+    pub frac: String,
+    /// decimal exponent applied on top (0 in the `fixed` sub-check)
+    pub exp: i32,
+}
+
+impl Num {
+    pub fn text(&self) -> String {
+        let mut s = String::new();
+        if self.neg {
+            s.push('-');
+        }
+        s.push_str(if self.int.is_empty() { "0" } else { &self.int });
+        if !self.frac.is_empty() {
+            s.push('.');
+            s.push_str(&self.frac);
+        }
+        if self.exp != 0 {
+            s.push_str(&format!("e{}", self.exp));
+        }
+        s
+    }
+    /// The finite f64 nearest to the decimal (overflow is clamped to +-f64::MAX).
+    pub fn value(&self) -> f64 {
+        let v: f64 = self.text().parse().unwrap_or(0.0);
+        if v.is_infinite() {
+            if self.neg {
+                f64::MIN
+            } else {
+                f64::MAX
+            }
+        } else if v.is_nan() {
+            0.0
+        } else {
+            v
+        }
+    }
+}
+
+fn digits(len: impl Strategy<Value = usize> + 'static) -> BoxedStrategy<String> {
+    len.prop_flat_map(|n| prop::collection::vec(0u8..10, n))
+        .prop_map(|v| v.into_iter().map(|d| (b'0' + d) as char).collect::<String>())
+        .boxed()
+}
+
+fn int_part() -> BoxedStrategy<String> {
+    prop_oneof![
+        3 => Just("0".to_string()),
+        4 => (1u8..10, digits(0usize..3)).prop_map(|(a, r)| format!("{}{}", a, r)),
+        3 => (1u8..10, digits(3usize..7)).prop_map(|(a, r)| format!("{}{}", a, r)),
+        1 => (1u8..10, digits(7usize..15)).prop_map(|(a, r)| format!("{}{}", a, r)),
+        2 => (1usize..8).prop_map(|n| "9".repeat(n)),
+        1 => (1u8..10, digits(0usize..4), 1usize..4).prop_map(|(a, r, n)| format!("{}{}{}", a, r, "9".repeat(n))),
+    ]
+    .boxed()
+}
+
+#[derive(Debug, Clone, Copy)]
+enum FracMode {
+    Short,
+    Equal,
+    LongHalf,
+    LongUp,
+    LongDown,
+    NinesUp,
+    NinesHalf,
+}
+
+/// Fraction digits built relative to `decimals`.
+fn frac_part(decimals: usize) -> BoxedStrategy<String> {
+    let mode = prop_oneof![
+        2 => Just(FracMode::Short),
+        2 => Just(FracMode::Equal),
+        3 => Just(FracMode::LongHalf),
+        3 => Just(FracMode::LongUp),
+        2 => Just(FracMode::LongDown),
+        2 => Just(FracMode::NinesUp),
+        1 => Just(FracMode::NinesHalf),
+    ];
+    let zeros = prop_oneof![6 => Just(0usize), 2 => Just(1usize), 1 => Just(2usize), 1 => 3usize..6];
+    (mode, zeros, digits(Just(8usize)), 1u8..10, 5u8..10, 0u8..5, digits(0usize..4), 0usize..8)
+        .prop_map(move |(mode, z, body, nz, up, down, tail, short_len)| {
+            let d = decimals;
+            // kept part: z leading zeros then body digits, cut to d
+            let mut kept: String = "0".repeat(z);
+            kept.push_str(&body);
+            let kept_d: String = kept.chars().take(d).collect();
+            let nz = (b'0' + nz) as char;
+            match mode {
+                FracMode::Short => {
+                    if d == 0 {
+                        String::new()
+                    } else {
+                        let k = short_len % d; // 0..d-1 digits
+                        let mut s: String = kept.chars().take(k).collect();
+                        if k > 0 {
+                            s.pop();
+                            s.push(nz);
+                        }
+                        s
+                    }
+                }
+                FracMode::Equal => {
+                    let mut s = kept_d;
+                    if !s.is_empty() {
+                        s.pop();
+                        s.push(nz);
+                    }
+                    s
+                }
+                FracMode::LongHalf => format!("{}5", kept_d),
+                FracMode::LongUp => format!("{}{}{}", kept_d, (b'0' + up) as char, tail),
+                FracMode::LongDown => format!("{}{}{}{}", kept_d, (b'0' + down) as char, tail, nz),
+                FracMode::NinesUp => format!("{}{}{}", "9".repeat(d), (b'0' + up) as char, tail),
+                FracMode::NinesHalf => format!("{}5", "9".repeat(d)),
+            }
+        })
+        .boxed()
+}
+
+#[derive(Debug, Clone, Serialize, Deserialize)]
+pub struct FixedCase {
+    /// the number the pattern shows (for percentages: already x100; the cell holds this / 100)
+    pub shown: Num,
+    pub decimals: u8,
+    /// 0 = `0.00`, 1 = `#,##0.00`, 2 = `0.00%`
+    pub kind: u8,
+    /// 0 = to_formatted_string, 1 = Cell + set_format_code, 2 = Cell + set_number_format_id (built-in patterns only)
+    pub route: u8,
+}
+
+impl FixedCase {
+    pub fn pattern(&self) -> String {
+        let d = self.decimals as usize;
+        let mut p = if self.kind == 1 { "#,##0".to_string() } else { "0".to_string() };
+        if d > 0 {
+            p.push('.');
+            p.push_str(&"0".repeat(d));
+        }
+        if self.kind == 2 {
+            p.push('%');
+        }
+        p
+    }
+    /// Decimal text of the cell's number: `shown`, with the point moved two places to the
+    /// left for percentages (exact, on the digit string).
+    pub fn number_text(&self) -> String {
+        if self.kind != 2 {
+            return self.shown.text();
+        }
+        let mut int = self.shown.int.clone();
+        while int.len() < 3 {
+            int.insert(0, '0');
+        }
+        let cut = int.len() - 2;
+        let n = Num {
+            neg: self.shown.neg,
+            int: int[..cut].trim_start_matches('0').to_string(),
+            frac: format!("{}{}", &int[cut..], self.shown.frac),
+            exp: 0,
+        };
+        n.text()
+    }
+}
+
+/// Clamp generated components into the statement's domain (<= 15 significant digits,
+/// magnitude 1e-7..1e15 or zero) by construction.
+fn clamp_fixed(mut shown: Num, kind: u8) -> Num {
+    shown.exp = 0;
+    if shown.int.is_empty() {
+        shown.int = "0".into();
+    }
+    let max_int = if kind == 2 { 15 } else { 15 };
+    if shown.int.len() > max_int {
+        shown.int.truncate(max_int);
+    }
+    // magnitude: leading zeros of the fraction when the integer part is 0
+    let int_zero = shown.int.bytes().all(|b| b == b'0');
+    if int_zero {
+        let max_lead = if kind == 2 { 4 } else { 6 };
+        let lead = shown.frac.bytes().take_while(|b| *b == b'0').count();
+        if lead > max_lead && lead < shown.frac.len() {
+            shown.frac.drain(..lead - max_lead);
+        }
+    }
+    // significant digits
+    let all: String = format!("{}{}", shown.int, shown.frac);
+    let lead = all.bytes().take_while(|b| *b == b'0').count();
+    let sig = all.len() - lead;
+    if sig > 15 {
+        let drop = sig - 15;
+        let keep = shown.frac.len().saturating_sub(drop);
+        shown.frac.truncate(keep);
+    }
+    let zero = shown.int.bytes().chain(shown.frac.bytes()).all(|b| b == b'0');
+    if zero {
+        shown.neg = false;
+    }
+    shown
+}
+
+fn fixed_case(_t: Tier) -> BoxedStrategy<FixedCase> {
+    (0u8..7, prop_oneof![3 => Just(0u8), 2 => Just(1u8), 2 => Just(2u8)])
+        .prop_flat_map(|(decimals, kind)| {
+            (
+                Just(decimals),
+                Just(kind),
+                prop::bool::weighted(0.35),
+                int_part(),
+                frac_part(decimals as usize),
+                prop_oneof![3 => Just(0u8), 2 => Just(1u8), 1 => Just(2u8)],
+            )
+        })
+        .prop_map(|(decimals, kind, neg, int, frac, route)| {
+            let shown = clamp_fixed(Neg { neg, int, frac }.into(), kind);
+            FixedCase { shown, decimals, kind, route }
+        })
+        .boxed()
+}
+
+struct Neg {
+    neg: bool,
+    int: String,
+    frac: String,
+}
+impl From<Neg> for Num {
+    fn from(n: Neg) -> Num {
+        Num { neg: n.neg, int: n.int, frac: n.frac, exp: 0 }
+    }
+}
+
+/// id of a built-in pattern, if the pattern is one
+fn builtin_id_of(pattern: &str) -> Option<u32> {
+    match pattern {
+        "0" => Some(1),
+        "0.00" => Some(2),
+        "#,##0" => Some(3),
+        "#,##0.00" => Some(4),
+        "0%" => Some(9),
+        "0.00%" => Some(10),
+        _ => None,
+    }
+}
+
+fn format_via(route: u8, number: f64, pattern: &str) -> Result<String, PanicInfo> {
+    guard(|| match (route, builtin_id_of(pattern)) {
+        (0, _) => to_formatted_string(number.to_string(), pattern),
+        (2, Some(id)) => {
+            let mut book = umya_spreadsheet::new_file();
+            let sheet = book.get_sheet_mut(&0).unwrap();
+            let cell = sheet.get_cell_mut((2, 3));
+            cell.set_value_number(number);
+            cell.get_style_mut().get_number_format_mut().set_number_format_id(id);
+            sheet.get_formatted_value((2, 3))
+        }
+        _ => {
+            let mut book = umya_spreadsheet::new_file();
+            let sheet = book.get_sheet_mut(&0).unwrap();
+            let cell = sheet.get_cell_mut((2, 3));
+            cell.set_value_number(number);
+            cell.get_style_mut().get_number_format_mut().set_format_code(pattern);
+            cell.get_formatted_value()
+        }
+    })
+}
+
+/// Shape of a fixed-decimal rendering: sign, integer digits (separators removed, positions
+/// kept), fraction digits, percent sign.
+struct Shape {
+    neg: bool,
+    int: String,
+    int_grouped_ok: bool,
+    has_group: bool,
+    frac: Option<String>,
+    percent: bool,
+}
+
+fn shape_of(s: &str) -> Option<Shape> {
+    let (neg, body) = match s.strip_prefix('-') {
+        Some(b) => (true, b),
+        None => (false, s),
+    };
+    let (body, percent) = match body.strip_suffix('%') {
+        Some(b) => (b, true),
+        None => (body, false),
+    };
+    let (int_raw, frac) = match body.split_once('.') {
+        Some((i, f)) => (i, Some(f.to_string())),
+        None => (body, None),
+    };
+    if int_raw.is_empty() || !int_raw.bytes().all(|b| b.is_ascii_digit() || b == b',') {
+        return None;
+    }
+    if let Some(f) = &frac {
+        if f.is_empty() || !f.bytes().all(|b| b.is_ascii_digit()) {
+            return None;
+        }
+    }
+    let int: String = int_raw.chars().filter(|c| *c != ',').collect();
+    if int.is_empty() {
+        return None;
+    }
+    let has_group = int_raw.contains(',');
+    let int_grouped_ok = crate::model::decimal::group_thousands(&int) == int_raw;
+    Some(Shape { neg, int, int_grouped_ok, has_group, frac, percent })
+}
+
+/// Failure mode computed from the discrepancy between the shown and the expected text.
+fn failure_mode(out: &str, c: &FixedCase, exp: &crate::model::decimal::Rendering) -> &'static str {
+    let Some(sh) = shape_of(out) else {
+        return "not-a-decimal-rendering";
+    };
+    let d = c.decimals as usize;
+    if sh.percent != (c.kind == 2) {
+        return "percent-sign";
+    }
+    let got_d = sh.frac.as_ref().map_or(0, |f| f.len());
+    if got_d != d {
+        return "wrong-decimal-count";
+    }
+    let r = &exp.rounded;
+    let same_digits = sh.int.trim_start_matches('0') == r.int_digits.trim_start_matches('0') && sh.frac.clone().unwrap_or_default() == r.frac_digits;
+    if !same_digits {
+        // compare as integers scaled by 10^d
+        let got: String = format!("{}{}", sh.int, sh.frac.clone().unwrap_or_default());
+        let want: String = format!("{}{}", r.int_digits, r.frac_digits);
+        let diff = digit_string_diff(&got, &want);
+        return match diff {
+            Some(1) if r.dropped_any && r.exact_half => "half-not-rounded-away",
+            Some(1) if r.dropped_any => "misrounded-last-place",
+            _ if c.kind == 2 => "wrong-percent-digits",
+            _ => "wrong-digits",
+        };
+    }
+    if sh.neg != r.neg {
+        return "sign";
+    }
+    if sh.int != r.int_digits {
+        return "integer-padding";
+    }
+    if c.kind == 1 && !(sh.int_grouped_ok) {
+        return "separators";
+    }
+    if c.kind != 1 && sh.has_group {
+        return "separators";
+    }
+    "other"
+}
+
+/// |a-b| for two non-negative decimal digit strings if it is small (<= 9), else None.
+fn digit_string_diff(a: &str, b: &str) -> Option<u32> {
+    let a = a.trim_start_matches('0');
+    let b = b.trim_start_matches('0');
+    let n = a.len().max(b.len());
+    if n > 36 {
+        return None;
+    }
+    let pa: u128 = if a.is_empty() { 0 } else { a.parse().ok()? };
+    let pb: u128 = if b.is_empty() { 0 } else { b.parse().ok()? };
+    let d = pa.abs_diff(pb);
+    if d <= 9 {
+        Some(d as u32)
+    } else {
+        None
+    }
+}
+
+fn kind_name(kind: u8) -> &'static str {
+    match kind {
+        0 => "fixed",
+        1 => "thousands",
+        _ => "percent",
+    }
+}
+
+pub fn check_fixed(c: &FixedCase, obs: &mut Obs) -> Verdict {
+    if c.kind > 2 || c.decimals > 6 {
+        return Verdict::Discard("pattern outside the statement".into());
+    }
+    let text = c.number_text();
+    let x: f64 = match text.parse::<f64>() {
+        Ok(v) if v.is_finite() => v,
+        _ => return Verdict::Discard(format!("{:?} is not a finite number", text)),
+    };
+    let sd = Dec::shortest(x);
+    if sd.digits.len() > 15 {
+        return Verdict::Discard("more than 15 significant digits".into());
+    }
+    if !sd.is_zero() && !(x.abs() >= 1e-7 && x.abs() < 1e15) {
+        return Verdict::Discard("magnitude outside 1e-7..1e15".into());
+    }
+    if x == 0.0 && x.is_sign_negative() {
+        return Verdict::Discard("-0.0".into());
+    }
+    // the harness's own sanity: the f64's shortest decimal is the decimal that was written
+    if Some(&sd) != Dec::from_plain(&text).as_ref() {
+        return Verdict::Discard(format!("{:?} does not round-trip through f64 ({:?})", text, sd));
+    }
+    let d = c.decimals as usize;
+    let exp = render_fixed(x, d, c.kind == 1, c.kind == 2);
+    let pattern = c.pattern();
+    let r = &exp.rounded;
+    // strata / non-triviality
+    let longer_up = exp.frac_len > d && r.first_dropped >= 5;
+    let shorter = exp.frac_len < d;
+    obs.nontrivial(longer_up || shorter || exp.frac_leading_zero);
+    obs.class(format!("pattern/{}", kind_name(c.kind)));
+    obs.class(format!("decimals/{}", d));
+    obs.class(format!("route/{}", c.route));
+    obs.class(if exp.frac_len > d {
+        if r.exact_half {
+            "frac/longer-exact-half"
+        } else if r.first_dropped >= 5 {
+            "frac/longer-up"
+        } else {
+            "frac/longer-down"
+        }
+    } else if exp.frac_len == d {
+        "frac/equal"
+    } else {
+        "frac/shorter"
+    });
+    if exp.frac_leading_zero {
+        obs.class("frac/leading-zero");
+    }
+    if r.carry_len > 0 {
+        obs.class(if r.carry_len > d { "carry/into-integer" } else { "carry/in-fraction" });
+    }
+    if r.neg {
+        obs.class("sign/negative");
+    }
+    if c.kind == 1 && r.int_digits.len() > 3 {
+        obs.class("separators/needed");
+    }
+    let neg_zero = r.neg && r.is_zero;
+    if neg_zero {
+        obs.class("sign/negative-rounds-to-zero(either accepted)");
+    }
+    let out = match format_via(c.route, x, &pattern) {
+        Ok(o) => o,
+        Err(p) => {
+            return Verdict::fail(
+                format!("{}/panic:{}", kind_name(c.kind), p.site()),
+                format!("{} with format {:?}: {}", text, pattern, p.short()),
+            )
+        }
+    };
+    if out == exp.text || (neg_zero && out == exp.text_unsigned) {
+        return Verdict::Pass;
+    }
+    let mode = failure_mode(&out, c, &exp);
+    Verdict::fail(
+        format!("{}/{}", kind_name(c.kind), mode),
+        format!("{} with format {:?} shows {:?}, the correctly rounded rendering is {:?}", text, pattern, out, exp.text),
+    )
+}
+
+// ---------------------------------------------------------------------------------------
+// General
+
+#[derive(Debug, Clone, Serialize, Deserialize)]
+pub struct GeneralCase {
+    /// 0 = number, 1 = text
+    pub kind: u8,
+    pub num: Num,
+    pub text: String,
+    /// 0 = to_formatted_string(.., "General"), 1 = Cell with default style, 2 = Cell with explicit General format
+    pub route: u8,
+}
+
+/// Finite numbers over the whole f64 range.
+pub fn wide_num() -> BoxedStrategy<Num> {
+    let special = prop::sample::select(vec![
+        "0", "1", "-1", "0.5", "0.1", "0.3", "0.30000000000000004", "1e-7", "1e15", "1e16", "1e21", "1e22", "123456789012345678",
+        "2958465", "2958466", "60", "59", "61", "0.99999", "-0.5", "4.9e-324", "2.2250738585072014e-308", "1.7976931348623157e308",
+        "-1.7976931348623157e308", "9007199254740993", "4294967296", "2147483648", "-2147483649", "1e100", "1e-100", "43831.75",
+        "0.000011574", "99999999.99", "1e9", "9.5e7", "9.6e7", "-1e9", "1e10", "1.5", "2.5", "1.005",
+    ])
+    .prop_map(|s| {
+        let neg = s.starts_with('-');
+        let body = s.trim_start_matches('-');
+        let (m, e) = body.split_once('e').unwrap_or((body, "0"));
+        let (i, f) = m.split_once('.').unwrap_or((m, ""));
+        Num { neg, int: i.to_string(), frac: f.to_string(), exp: e.parse().unwrap() }
+    });
+    let general = (any::<bool>(), (1u8..10), digits(0usize..17), -330i32..310).prop_map(|(neg, a, rest, e)| Num {
+        neg,
+        int: "0".into(),
+        frac: format!("{}{}", a, rest),
+        exp: e,
+    });
+    let positional = (prop::bool::weighted(0.3), int_part(), digits(0usize..10)).prop_map(|(neg, int, frac)| Num { neg, int, frac, exp: 0 });
+    let serial = (0u32..2958466, digits(0usize..8)).prop_map(|(d, frac)| Num { neg: false, int: d.to_string(), frac, exp: 0 });
+    prop_oneof![2 => special, 3 => general, 3 => positional, 2 => serial].boxed()
+}
+
+fn general_case(_t: Tier) -> BoxedStrategy<GeneralCase> {
+    let text = prop_oneof![
+        3 => crate::gen::text::plain_text(24),
+        2 => crate::gen::text::special_strings(),
+        2 => prop::sample::select(vec![
+            "007", "1e5", "1E5", "+1", "0.10", "1.", ".5", "-0", "inf", "Infinity", "-inf", "nan", "NaN", "1_000", "1,000", "12 ", " 12", "0x1F",
+            "1e400", "١٢٣", "1.0", "100000000000000000000000", "0.1000000000000000055511151231257827",
+        ]).prop_map(|s| s.to_string()),
+    ];
+    (prop::bool::weighted(0.55), wide_num(), text, 0u8..3)
+        .prop_map(|(is_num, num, text, route)| GeneralCase { kind: if is_num { 0 } else { 1 }, num, text, route })
+        .boxed()
+}
+
+pub fn check_general(c: &GeneralCase, obs: &mut Obs) -> Verdict {
+    if c.kind == 0 {
+        let x = c.num.value();
+        let value_text = x.to_string();
+        obs.class("general/number");
+        obs.nontrivial(x.fract() != 0.0 || x.abs() >= 1e15 || (x != 0.0 && x.abs() < 1e-4));
+        let r = guard(|| match c.route {
+            0 => (to_formatted_string(&value_text, "General"), value_text.clone()),
+            _ => {
+                let mut book = umya_spreadsheet::new_file();
+                let sheet = book.get_sheet_mut(&0).unwrap();
+                let cell = sheet.get_cell_mut((1, 1));
+                cell.set_value_number(x);
+                if c.route == 2 {
+                    cell.get_style_mut().get_number_format_mut().set_format_code("General");
+                }
+                (cell.get_formatted_value(), cell.get_value().to_string())
+            }
+        });
+        match r {
+            Err(p) => Verdict::fail(format!("general-number/panic:{}", p.site()), format!("{}: {}", value_text, p.short())),
+            Ok((out, cell_text)) => {
+                let same_text = out == cell_text;
+                let same_bits = out.parse::<f64>().map_or(false, |y| y.to_bits() == x.to_bits());
+                if same_text || same_bits {
+                    Verdict::Pass
+                } else {
+                    Verdict::fail("general-number/changed", format!("number {:?} (value text {:?}) is shown as {:?}", x, cell_text, out))
+                }
+            }
+        }
+    } else {
+        let t = &c.text;
+        let lookalike = t.parse::<f64>().is_ok();
+        obs.class(if lookalike { "general/text-numeric-lookalike" } else { "general/text" });
+        obs.nontrivial(lookalike);
+        let r = guard(|| match c.route {
+            0 => to_formatted_string(t, "General"),
+            _ => {
+                let mut book = umya_spreadsheet::new_file();
+                let sheet = book.get_sheet_mut(&0).unwrap();
+                let cell = sheet.get_cell_mut((1, 1));
+                cell.set_value_string(t.clone());
+                if c.route == 2 {
+                    cell.get_style_mut().get_number_format_mut().set_format_code("General");
+                }
+                cell.get_formatted_value()
+            }
+        });
+        let class = if lookalike { "general-text-numeric-lookalike" } else { "general-text" };
+        match r {
+            Err(p) => Verdict::fail(format!("{}/panic:{}", class, p.site()), format!("{:?}: {}", t, p.short())),
+            Ok(out) => {
+                if &out == t {
+                    Verdict::Pass
+                } else {
+                    Verdict::fail(format!("{}/changed", class), format!("text {:?} is shown as {:?}", t, out))
+                }
+            }
+        }
+    }
+}
+
+// ---------------------------------------------------------------------------------------
+// built-in formats never panic
+
+/// ids the library's table knows (`set_number_format_id` panics for any other id, which is
+/// about choosing a format, not about formatting)
+pub const LIB_BUILTIN_IDS: [u32; 56] = [
+    0, 1, 2, 3, 4, 9, 10, 11, 12, 13, 14, 15, 16, 17, 18, 19, 20, 21, 22, 27, 28, 29, 30, 31, 32, 33, 34, 35, 36, 37, 38, 39, 40, 44, 45, 46, 47, 48,
+    49, 50, 51, 52, 53, 54, 55, 56, 57, 58, 59, 60, 61, 62, 67, 68, 69, 70,
+];
+
+/// ECMA-376 part 1, 18.8.30: the built-in format codes (ids 0..49, en-US)
+pub const ECMA_CODES: [(u32, &str); 36] = [
+    (0, "General"),
+    (1, "0"),
+    (2, "0.00"),
+    (3, "#,##0"),
+    (4, "#,##0.00"),
+    (5, r##""$"#,##0_);("$"#,##0)"##),
+    (6, r##""$"#,##0_);[Red]("$"#,##0)"##),
+    (7, r##""$"#,##0.00_);("$"#,##0.00)"##),
+    (8, r##""$"#,##0.00_);[Red]("$"#,##0.00)"##),
+    (9, "0%"),
+    (10, "0.00%"),
+    (11, "0.00E+00"),
+    (12, "# ?/?"),
+    (13, "# ??/??"),
+    (14, "mm-dd-yy"),
+    (15, "d-mmm-yy"),
+    (16, "d-mmm"),
+    (17, "mmm-yy"),
+    (18, "h:mm AM/PM"),
+    (19, "h:mm:ss AM/PM"),
+    (20, "h:mm"),
+    (21, "h:mm:ss"),
+    (22, "m/d/yy h:mm"),
+    (37, "#,##0 ;(#,##0)"),
+    (38, "#,##0 ;[Red](#,##0)"),
+    (39, "#,##0.00;(#,##0.00)"),
+    (40, "#,##0.00;[Red](#,##0.00)"),
+    (41, r##"_(* #,##0_);_(* \(#,##0\);_(* "-"_);_(@_)"##),
+    (42, r##"_("$"* #,##0_);_("$"* \(#,##0\);_("$"* "-"_);_(@_)"##),
+    (43, r##"_(* #,##0.00_);_(* \(#,##0.00\);_(* "-"??_);_(@_)"##),
+    (44, r##"_("$"* #,##0.00_);_("$"* \(#,##0.00\);_("$"* "-"??_);_(@_)"##),
+    (45, "mm:ss"),
+    (46, "[h]:mm:ss"),
+    (47, "mmss.0"),
+    (48, "##0.0E+0"),
+    (49, "@"),
+];
+
+#[derive(Debug, Clone, Serialize, Deserialize)]
+pub struct BuiltinCase {
+    /// index into LIB_BUILTIN_IDS followed by ECMA_CODES (monotone mapping)
+    pub fmt: u16,
+    pub num: Num,
+    /// dirty stratum: date formats get the number as it is, also beyond the calendar
+    /// (open finding); in the clean stratum such a number is folded into the calendar
+    #[serde(default)]
+    pub dirty: bool,
+    /// 0 = to_formatted_string with the code, 1 = Cell (set_number_format_id for library ids, set_format_code for ECMA codes)
+    pub route: u8,
+}
+
+fn builtin_case(_t: Tier) -> BoxedStrategy<BuiltinCase> {
+    (any::<u16>(), wide_num(), 0u8..2, prop::bool::weighted(0.06))
+        .prop_map(|(fmt, num, route, dirty)| BuiltinCase { fmt, num, route, dirty })
+        .boxed()
+}
+
+/// Family of a format code, for strata and finding keys.
+pub fn format_family(code: &str) -> &'static str {
+    // strip quoted literals and bracket groups
+    let mut bare = String::new();
+    let mut in_q = false;
+    let mut in_b = false;
+    let mut prev_bs = false;
+    for ch in code.chars() {
+        if prev_bs {
+            prev_bs = false;
+            continue;
+        }
+        match ch {
+            '\\' if !in_q => prev_bs = true,
+            '"' => in_q = !in_q,
+            '[' if !in_q => in_b = true,
+            ']' if !in_q => in_b = false,
+            _ if in_q || in_b => {}
+            _ => bare.push(ch),
+        }
+    }
+    let has_elapsed = code.contains("[h]") || code.contains("[m]") || code.contains("[s]");
+    if code == "General" {
+        "general"
+    } else if bare.trim() == "@" {
+        "text"
+    } else if has_elapsed || bare.chars().any(|c| matches!(c, 'h' | 'm' | 's' | 'd' | 'y' | 'e' | 'g')) && !bare.contains("E+") {
+        "date"
+    } else if bare.contains("E+") || bare.contains("E-") {
+        "scientific"
+    } else if bare.contains('?') && bare.contains('/') {
+        "fraction"
+    } else if bare.contains('%') {
+        "percent"
+    } else if bare.contains(';') {
+        "multi-section"
+    } else {
+        "number"
+    }
+}
+
+/// Day counts of this magnitude are outside any calendar the date formatter can hold
+/// (chrono ends in year 262142, about 9.5e7 days from 1900); label of a stratum, not an
+/// oracle constant.
+pub const CALENDAR_LIMIT: f64 = 9.0e7;
+
+/// Open findings of the `builtin` sub-check that the clean stratum steers around.
+pub const DATE_OVERFLOW_KEYS: [&str; 2] = [
+    "builtin-date:serial-beyond-calendar/panic:helper/date.rs",
+    "builtin-date:serial-beyond-calendar/panic:lib.rs",
+];
+
+fn number_class(family: &str, x: f64) -> &'static str {
+    if family == "date" {
+        if x.abs() >= CALENDAR_LIMIT {
+            "serial-beyond-calendar"
+        } else if x < 0.0 {
+            "negative-serial"
+        } else if x >= 2958466.0 {
+            "serial-after-9999"
+        } else {
+            "serial-in-range"
+        }
+    } else if x == 0.0 {
+        "zero"
+    } else if x.abs() >= 1e15 {
+        "huge"
+    } else if x.abs() < 1e-7 {
+        "tiny"
+    } else if x < 0.0 {
+        "negative"
+    } else if x.fract() == 0.0 {
+        "integer"
+    } else {
+        "fractional"
+    }
+}
+
+fn builtin_format(c: &BuiltinCase) -> (Option<u32>, Option<&'static str>) {
+    let n_lib = LIB_BUILTIN_IDS.len();
+    let i = pick_idx(c.fmt, n_lib + ECMA_CODES.len());
+    if i < n_lib {
+        (Some(LIB_BUILTIN_IDS[i]), None)
+    } else {
+        (None, Some(ECMA_CODES[i - n_lib].1))
+    }
+}
+
+pub fn check_builtin(c: &BuiltinCase, obs: &mut Obs) -> Verdict {
+    let x = c.num.value();
+    let (id, ecma) = builtin_format(c);
+    // the code, looked up through the public API for library ids
+    let code: String = match (id, ecma) {
+        (Some(id), _) => {
+            let r = guard(|| {
+                let mut nf = umya_spreadsheet::NumberingFormat::default();
+                nf.set_number_format_id(id);
+                nf.get_format_code().to_string()
+            });
+            match r {
+                Ok(c) => c,
+                Err(p) => return Verdict::fail(format!("builtin-id-{}/lookup-panic:{}", id, p.site()), p.short()),
+            }
+        }
+        (None, Some(code)) => code.to_string(),
+        _ => unreachable!(),
+    };
+    let family = format_family(&code);
+    let mut x = x;
+    if family == "date" && x.abs() >= CALENDAR_LIMIT {
+        if c.dirty {
+            obs.class("stratum/dirty-date-beyond-calendar");
+        } else {
+            // steer around the open finding: fold the day count into the calendar
+            x = x % CALENDAR_LIMIT;
+            for k in DATE_OVERFLOW_KEYS {
+                obs.excluded(k);
+            }
+        }
+    }
+    let nclass = number_class(family, x);
+    obs.class(format!("family/{}", family));
+    obs.class(format!("{}:{}", family, nclass));
+    obs.class(if id.is_some() { "source/library-id" } else { "source/ecma-code" });
+    obs.nontrivial(family != "general" && family != "text");
+    let r = guard(|| match c.route {
+        0 => to_formatted_string(x.to_string(), &code),
+        _ => {
+            let mut book = umya_spreadsheet::new_file();
+            let sheet = book.get_sheet_mut(&0).unwrap();
+            let cell = sheet.get_cell_mut((3, 2));
+            cell.set_value_number(x);
+            match id {
+                Some(id) => {
+                    cell.get_style_mut().get_number_format_mut().set_number_format_id(id);
+                }
+                None => {
+                    cell.get_style_mut().get_number_format_mut().set_format_code(code.clone());
+                }
+            }
+            sheet.get_formatted_value((3, 2))
+        }
+    });
+    match r {
+        Ok(_) => Verdict::Pass,
+        Err(p) => Verdict::fail(
+            format!("builtin-{}:{}/panic:{}", family, nclass, p.site()),
+            format!("number {:?} with built-in format {:?} (id {:?}): {}", x, code, id, p.short()),
+        ),
+    }
+}
+
+fn subs() -> Vec<Box<dyn DynSub>> {
+    vec![
+        Box::new(Sub {
+            name: "fixed",
+            strategy: fixed_case,
+            cases: (4000, 150_000),
+            check: check_fixed,
+            max_shrink_iters: 800,
+        }),
+        Box::new(Sub {
+            name: "general",
+            strategy: general_case,
+            cases: (5000, 100_000),
+            check: check_general,
+            max_shrink_iters: 2000,
+        }),
+        Box::new(Sub {
+            name: "builtin",
+            strategy: builtin_case,
+            cases: (2500, 80_000),
+            check: check_builtin,
+            max_shrink_iters: 2000,
+        }),
+    ]
+}
+
+// ---------------------------------------------------------------------------------------
+// enumerated leg + oracle self-tests
+
+fn harness_error(msg: &str) -> ! {
+    eprintln!("HARNESS-ERROR: {}", msg);
+    println!("INCONCLUSIVE property=C19 {}", msg);
+    std::process::exit(2);
+}
+
+fn extra(ctx: &Ctx) {
+    // the reference model against hand-computed values (cheap, every run)
+    for (x, d, th, pc, want) in [
+        (1.5, 0usize, false, false, "2"),
+        (2.5, 0, false, false, "3"),
+        (1.5, 2, false, false, "1.50"),
+        (1.999, 2, false, false, "2.00"),
+        (1.005, 2, false, false, "1.01"),
+        (0.05, 1, false, false, "0.1"),
+        (0.1234, 2, false, true, "12.34%"),
+        (999999.5, 0, true, false, "1,000,000"),
+        (-1234567.891, 1, true, false, "-1,234,567.9"),
+        (5e-7, 6, false, false, "0.000001"),
+        (20.275, 0, false, true, "2028%"),
+        (0.0, 2, false, false, "0.00"),
+    ] {
+        let got = render_fixed(x, d, th, pc).text;
+        if got != want {
+            harness_error(&format!("reference model renders {} as {:?}, expected {:?}", x, got, want));
+        }
+    }
+    if ctx.tier == Tier::Thorough {
+        match crate::model::selftest_numcsv::run_python_selftest(&["dec"]) {
+            Ok(msg) => ctx.set_extra("oracle_selftest", json!(msg)),
+            Err(e) => harness_error(&format!("oracle self-test against Python decimal failed: {}", e)),
+        }
+    }
+    if ctx.tier == Tier::Thorough && std::env::var("VERIF_FUZZ").is_ok() {
+        fuzz_campaign(ctx);
+    }
+    let (n_max, s_max, d_max) = ctx.tier.pick((1200u32, 4usize, 3u8), (20000u32, 5usize, 4u8));
+    let stop = AtomicBool::new(false);
+    (0..=n_max).into_par_iter().for_each(|n| {
+        if stop.load(Ordering::Relaxed) {
+            return;
+        }
+        let digits = n.to_string();
+        for s in 0..=s_max {
+            // n / 10^s as (int, frac)
+            let padded = format!("{:0>width$}", digits, width = s + 1);
+            let cut = padded.len() - s;
+            let int = padded[..cut].to_string();
+            let frac = padded[cut..].trim_end_matches('0').to_string();
+            for decimals in 0..=d_max {
+                for kind in 0..3u8 {
+                    let neg = n % 3 == 1 && n != 0;
+                    let case = FixedCase {
+                        shown: Num { neg, int: int.clone(), frac: frac.clone(), exp: 0 },
+                        decimals,
+                        kind,
+                        route: 0,
+                    };
+                    let mut obs = Obs::default();
+                    let v = check_fixed(&case, &mut obs);
+                    if matches!(v, Verdict::Discard(_)) {
+                        // percentages of very small numbers leave the 1e-7 domain: not a case
+                        ctx.discards.fetch_add(1, Ordering::Relaxed);
+                        continue;
+                    }
+                    let fp = fnv(format!("enum|{}|{}|{}|{}", n, s, decimals, kind).as_bytes());
+                    ctx.count_case(fp, obs.nontrivial);
+                    if ctx.judge("fixed", &case, v) {
+                        stop.store(true, Ordering::Relaxed);
+                        return;
+                    }
+                }
+            }
+        }
+    });
+    ctx.add_class("enumerated/n-values", n_max as u64 + 1);
+    ctx.set_extra("enumerated", json!({"n_max": n_max, "scales": s_max + 1, "decimals": d_max + 1, "kinds": 3}));
+}
+
+// ---------------------------------------------------------------------------------------
+// fuzzing entry (fuzz/fuzz_targets/fuzz_numfmt.rs)
+
+/// Decode fuzzer bytes into a case of one of the sub-checks.  Every byte string decodes to
+/// a case inside the generators' domain (digits are taken modulo 10, lengths are clamped).
+pub fn fuzz_decode(data: &[u8]) -> Option<(&'static str, serde_json::Value)> {
+    let (&sel, rest) = data.split_first()?;
+    let digit_string = |b: &[u8]| -> String { b.iter().map(|x| (b'0' + x % 10) as char).collect() };
+    match sel % 4 {
+        0 | 1 => {
+            // fixed: [flags][int len][digits...]
+            let (&flags, rest) = rest.split_first()?;
+            let (&il, rest) = rest.split_first()?;
+            let il = (il as usize % 16).min(rest.len());
+            let int = digit_string(&rest[..il]);
+            let frac = digit_string(&rest[il..rest.len().min(il + 16)]);
+            let kind = (flags >> 3) % 3;
+            let shown = clamp_fixed(
+                Num { neg: flags & 0x80 != 0, int: int.trim_start_matches('0').to_string(), frac, exp: 0 },
+                kind,
+            );
+            let case = FixedCase { shown, decimals: flags % 7, kind, route: (flags >> 5) % 3 };
+            Some(("fixed", serde_json::to_value(case).ok()?))
+        }
+        2 => {
+            // builtin: [fmt hi][fmt lo][route/dirty][8 bytes of f64 bits]
+            if rest.len() < 11 {
+                return None;
+            }
+            let fmt = u16::from_be_bytes([rest[0], rest[1]]);
+            let x = f64::from_bits(u64::from_le_bytes(rest[3..11].try_into().ok()?));
+            if !x.is_finite() {
+                return None;
+            }
+            let d = Dec::shortest(x);
+            let num = Num { neg: d.neg, int: "0".into(), frac: d.digits.iter().map(|v| (b'0' + v) as char).collect(), exp: d.point };
+            let case = BuiltinCase { fmt, num, route: rest[2] & 1, dirty: rest[2] & 0xF0 == 0xF0 };
+            Some(("builtin", serde_json::to_value(case).ok()?))
+        }
+        _ => {
+            // general text: the rest as (lossy) UTF-8 without NUL
+            let (&route, rest) = rest.split_first()?;
+            let text: String = String::from_utf8_lossy(rest).chars().filter(|c| *c != '\0').take(40).collect();
+            if text.is_empty() {
+                return None;
+            }
+            let case = GeneralCase { kind: 1, num: Num { neg: false, int: "0".into(), frac: String::new(), exp: 0 }, text, route: route % 3 };
+            Some(("general", serde_json::to_value(case).ok()?))
+        }
+    }
+}
+
+/// Judge one fuzzer input: `Some((sub, key, detail))` for a discrepancy that is not one of
+/// the open known findings of the `builtin` dirty stratum.
+pub fn fuzz_judge(data: &[u8]) -> Option<(&'static str, String, String)> {
+    static HOOK: std::sync::Once = std::sync::Once::new();
+    HOOK.call_once(install_panic_hook);
+    let (sub, case) = fuzz_decode(data)?;
+    let mut obs = Obs::default();
+    let v = match sub {
+        "fixed" => check_fixed(&serde_json::from_value(case).ok()?, &mut obs),
+        "builtin" => check_builtin(&serde_json::from_value(case).ok()?, &mut obs),
+        _ => check_general(&serde_json::from_value(case).ok()?, &mut obs),
+    };
+    match v {
+        Verdict::Fail { key, detail } if !DATE_OVERFLOW_KEYS.contains(&key.as_str()) => Some((sub, key, detail)),
+        _ => None,
+    }
+}
+
+/// Bounded libFuzzer campaign (thorough tier, opt-in with VERIF_FUZZ=1 because it needs the
+/// nightly toolchain and a sanitizer build of about 5 minutes).  A crash input is decoded
+/// and judged in-process, so a finding becomes an ordinary replay file.
+fn fuzz_campaign(ctx: &Ctx) {
+    let root = verif_root();
+    let fuzz_dir = format!("{}/fuzz", root);
+    let runs: u64 = std::env::var("VERIF_FUZZ_RUNS").ok().and_then(|s| s.parse().ok()).unwrap_or(60_000);
+    // same library source as the harness build
+    let ovr = std::env::var("VERIF_REPO_OVERRIDE")
+        .ok()
+        .or_else(|| std::fs::read_to_string(format!("{}/.repo_override", root)).ok())
+        .map(|s| s.trim().to_string())
+        .filter(|s| !s.is_empty());
+    let cfg_dir = format!("{}/.cargo", fuzz_dir);
+    let cfg = format!("{}/config.toml", cfg_dir);
+    let _ = std::fs::create_dir_all(&cfg_dir);
+    let body = match &ovr {
+        Some(p) => format!("paths = [\"{}\"]\n[net]\noffline = true\n", p),
+        None => "[net]\noffline = true\n".to_string(),
+    };
+    let _ = std::fs::write(&cfg, body);
+    let work = format!("{}/corpus/fuzz_numfmt-run-{}", fuzz_dir, std::process::id());
+    let arts = format!("{}/artifacts/", work);
+    let _ = std::fs::create_dir_all(&arts);
+    let out = std::process::Command::new("cargo")
+        .current_dir(&fuzz_dir)
+        .env("CARGO_NET_OFFLINE", "true")
+        .env_remove("CARGO_TARGET_DIR")
+        .args(["+nightly", "fuzz", "run", "--fuzz-dir", ".", "fuzz_numfmt", &work, "seeds/fuzz_numfmt", "--"])
+        .arg(format!("-runs={}", runs))
+        .arg(format!("-seed={}", (ctx.seed % 0xFFFF_FFFF) + 1))
+        .arg("-max_len=40")
+        .arg(format!("-artifact_prefix={}", arts))
+        .output();
+    let _ = std::fs::remove_dir_all(&cfg_dir);
+    let mut crashes = 0u64;
+    if let Ok(rd) = std::fs::read_dir(&arts) {
+        for e in rd.flatten() {
+            let Ok(bytes) = std::fs::read(e.path()) else { continue };
+            crashes += 1;
+            if let Some((sub, case)) = fuzz_decode(&bytes) {
+                if let Some((_, key, detail)) = fuzz_judge(&bytes) {
+                    ctx.count_case(fnv(&bytes), true);
+                    ctx.judge(sub, &case, Verdict::fail(key, detail));
+                }
+            }
+        }
+    }
+    let status = match &out {
+        Ok(o) if o.status.success() => format!("ok: {} runs, no crash", runs),
+        Ok(o) if crashes > 0 => format!("{} crash input(s), exit {:?}", crashes, o.status.code()),
+        Ok(o) => format!(
+            "unavailable (exit {:?}): {}",
+            o.status.code(),
+            truncate(String::from_utf8_lossy(&o.stderr).lines().rev().take(3).collect::<Vec<_>>().join(" / ").as_str(), 300)
+        ),
+        Err(e) => format!("unavailable: {}", e),
+    };
+    eprintln!("note: fuzz_numfmt campaign: {}", status);
+    ctx.set_extra("fuzz_numfmt", json!(status));
+    let _ = std::fs::remove_dir_all(&work);
 }
